@@ -104,6 +104,10 @@ def replay(gen, fn, args, outdir, env):
 
 
 def main() -> int:  # noqa: C901, PLR0912, PLR0915
+    if os.environ.get("PYTHONHASHSEED") != "0":
+        # obligation families are enumerated both here and in the workers: same hash seed everywhere
+        os.environ["PYTHONHASHSEED"] = "0"
+        os.execv(sys.executable, [sys.executable, "-m", "engine.runner", *sys.argv[1:]])
     ap = argparse.ArgumentParser()
     ap.add_argument("prop")
     ap.add_argument("--tier", default=os.environ.get("VERIF_TIER", "quick"), choices=["quick", "thorough"])
